@@ -78,4 +78,9 @@ PROPS = {
         "level_text": "Machine-checked Lean 4 theorems for EVERY list of 2..7 words below 2^32: valid iff every slot is one of the 52 card words and no two slots are equal (pairwise clauses of Two/Three/Four, the windowed contains of Five, the sort-then-scan of Six/Seven each proved equivalent to Nodup); the recogniser is the identity on exactly the 52 words for every word; validated ranking of 5, 6 or 7 arbitrary words never panics, is 0 exactly when the hand is not valid and otherwise equals unvalidated ranking, whose value is in 1..7462; the free function is the five-slot validated ranking.",
         "level_note": "Trusts: as C01/C02; the validators are hand-modelled and compared with the crate on the near-miss alphabet with a duplicate planted at every slot pair and a bad word at every slot of every size, seeded arrangements and arbitrary words (validated ranking included, under catch_unwind).",
     },
+    "C08": {
+        "technique": "Lean 4 kernel evaluation over the regenerated next_suit / get_card_rank / create graphs (53 words) + general proof of relabelling invariance from the C01/C02 theorems",
+        "level_text": "Machine-checked Lean 4 theorems: shifting a real card gives the card of the same rank and the next suit in S->H->D->C->S, four shifts restore it, three or fewer do not, blank stays blank (kernel evaluation over graphs regenerated from the crate); a container shift is the slot-wise shift; for ANY injective relabelling of the four suits (all 24) and EVERY five, six or seven distinct real cards in any order the value is unchanged (ranks and same-suit-ness are preserved, so the hands tie, so by C01/C02 the values agree); shifting is the instance sigma = next suit.",
+        "level_note": "Trusts: as C01/C02; shift_suit = create(get_card_rank, next_suit) is a hand-modelled composition of regenerated graphs, compared with the crate on the 53 words, every rank-field x suit-bit combination and seeded hands of sizes 2..7.",
+    },
 }
